@@ -66,6 +66,16 @@ impl SwiftField for Field37H {
             });
         }
 
+        // 12d: at most 12 characters, decimal separator included
+        if remaining.len() > 12 {
+            return Err(ParseError::InvalidFormat {
+                message: format!(
+                    "Field37H rate must not exceed 12 characters, found {}",
+                    remaining.len()
+                ),
+            });
+        }
+
         let rate = if is_negative.is_some() {
             -parse_amount(remaining)?
         } else {
